@@ -400,6 +400,171 @@ fn judge(site: &str, view: Option<&Upd>, counts: bool, exact: bool, o: &Obs, ql:
 }
 fn pcap_of(b: &[u8]) -> String { let mut s = String::from("000000 "); for x in b { s.push_str(&format!("{:02x} ", x)); } s }
 
+
+// ===================================================================== Log / LogEntry
+
+#[derive(Clone, Debug, PartialEq)]
+enum Op { Custom(String), OriginAs, PeerAs, Hops, CReach, CUnreach, MpReach, MpUnreach, LogAll, Write, LogCustom(u32, u32) }
+impl Op {
+    fn tok(&self) -> String {
+        match self { Op::Custom(s) => format!("cu:{s}"), Op::OriginAs => "oa".into(), Op::PeerAs => "pa".into(), Op::Hops => "ah".into(), Op::CReach => "cr".into(), Op::CUnreach => "cw".into(),
+            Op::MpReach => "mr".into(), Op::MpUnreach => "mu".into(), Op::LogAll => "la".into(), Op::Write => "we".into(), Op::LogCustom(a, b) => format!("lc:{a}:{b}") }
+    }
+    fn parse(s: &str) -> Op {
+        match s { "oa" => Op::OriginAs, "pa" => Op::PeerAs, "ah" => Op::Hops, "cr" => Op::CReach, "cw" => Op::CUnreach, "mr" => Op::MpReach, "mu" => Op::MpUnreach, "la" => Op::LogAll, "we" => Op::Write,
+            s if s.starts_with("cu:") => Op::Custom(s[3..].to_string()),
+            s => { let v: Vec<&str> = s.split(':').collect(); Op::LogCustom(v[1].parse().unwrap(), v[2].parse().unwrap()) } }
+    }
+    fn setter(&self) -> Option<&'static str> {
+        match self { Op::OriginAs => Some("origin_as"), Op::PeerAs => Some("peer_as"), Op::Hops => Some("as_path_hops"), Op::CReach => Some("conventional_reach"), Op::CUnreach => Some("conventional_unreach"),
+            Op::MpReach => Some("mp_reach"), Op::MpUnreach => Some("mp_unreach"), Op::LogAll => Some("log_all"), _ => None }
+    }
+}
+fn ops_tok(ops: &[Op]) -> String { if ops.is_empty() { "-".into() } else { join(ops.iter().map(|o| o.tok()), ",") } }
+fn ops_parse(s: &str) -> Vec<Op> { if s == "-" { vec![] } else { s.split(',').map(Op::parse).collect() } }
+
+/// roto statements for an op list; `chain[i]` = glue op i+1 onto the same `output.entry()` expression as op i
+fn ops_roto(ops: &[Op], chain: &[bool], ind: &str) -> String {
+    let mut s = String::new();
+    let mut i = 0;
+    while i < ops.len() {
+        match &ops[i] {
+            Op::Write => { s.push_str(&format!("{ind}output.write_entry();\n")); i += 1; }
+            Op::LogCustom(a, b) => { s.push_str(&format!("{ind}output.log_custom({a}, {b});\n")); i += 1; }
+            _ => {
+                let mut e = String::from("output.entry()");
+                loop {
+                    match &ops[i] {
+                        Op::Custom(t) => { e.push_str(&format!(".custom(\"{t}\")")); i += 1; break; } // returns Unit: ends the chain
+                        o => { e.push_str(&format!(".{}(m)", o.setter().unwrap())); i += 1; }
+                    }
+                    if i >= ops.len() || !chain.get(i - 1).copied().unwrap_or(false) || matches!(ops[i], Op::Write | Op::LogCustom(..)) { break; }
+                }
+                s.push_str(&format!("{ind}{e};\n"));
+            }
+        }
+    }
+    s
+}
+
+/// a `LogEntry` as the property talks about it; `ts`: a real timestamp (not the Unix epoch)
+#[derive(Clone, Debug, PartialEq, Default)]
+struct Ent { ts: bool, oa: Option<u32>, pa: Option<u32>, ah: Option<usize>, cr: usize, cw: usize, mr: Option<usize>, mf: Option<u8>, mu: Option<usize>, uf: Option<u8>, cs: Option<String> }
+fn fam_of(a: routecore::bgp::types::AfiSafiType) -> u8 {
+    match format!("{a:?}").as_str() { "Ipv4Unicast" => 0, "Ipv4Multicast" => 1, "Ipv6Unicast" => 2, "Ipv6Multicast" => 3, _ => 99 }
+}
+impl Ent {
+    fn of(e: &LogEntry) -> Ent {
+        Ent { ts: e.timestamp.timestamp() != 0, oa: e.origin_as.map(|a| a.into_u32()), pa: e.peer_as.map(|a| a.into_u32()), ah: e.as_path_hops, cr: e.conventional_reach, cw: e.conventional_unreach,
+            mr: e.mp_reach, mf: e.mp_reach_afisafi.map(fam_of), mu: e.mp_unreach, uf: e.mp_unreach_afisafi.map(fam_of), cs: e.custom.clone() }
+    }
+    fn show(&self) -> String {
+        fn o<T: std::fmt::Display>(x: &Option<T>) -> String { x.as_ref().map(|v| v.to_string()).unwrap_or("-".into()) }
+        format!("E({};{};{};{};{};{};{};{};{};{};{})", self.ts as u8, o(&self.oa), o(&self.pa), o(&self.ah), self.cr, self.cw, o(&self.mr), o(&self.mf), o(&self.mu), o(&self.uf), o(&self.cs))
+    }
+    /// first field that differs, by the name of the method that writes it
+    fn diff(&self, want: &Ent) -> Option<&'static str> {
+        if self.oa != want.oa { return Some("origin_as"); } if self.pa != want.pa { return Some("peer_as"); } if self.ah != want.ah { return Some("as_path_hops"); }
+        if self.cr != want.cr { return Some("conventional_reach"); } if self.cw != want.cw { return Some("conventional_unreach"); }
+        if self.mr != want.mr || self.mf != want.mf { return Some("mp_reach"); } if self.mu != want.mu || self.uf != want.uf { return Some("mp_unreach"); }
+        if self.cs != want.cs { return Some("custom"); } if self.ts != want.ts { return Some("timestamp"); }
+        None
+    }
+}
+#[derive(Clone, Debug, PartialEq)]
+enum Out { Custom(u32, u32), Entry(Ent), Other(String) }
+impl Out {
+    fn show(&self) -> String { match self { Out::Custom(a, b) => format!("C({a};{b})"), Out::Entry(e) => e.show(), Out::Other(s) => s.clone() } }
+}
+fn outs_show(v: &[Out]) -> String { if v.is_empty() { "-".into() } else { join(v.iter().map(|o| o.show()), " ") } }
+
+/// the documented meaning of the Log / LogEntry calls on one message: every `write_entry` emits the
+/// entry composed since the previous one (a new, empty, freshly timestamped entry follows), every
+/// setter writes its own field(s) from the message and nothing else
+fn spec_ops(m: Option<&BmpIn>, ops: &[Op], start: Ent) -> (Vec<Out>, Ent) {
+    let fresh = Ent { ts: true, ..Ent::default() };
+    let mut e = start; let mut outs = vec![];
+    let view = m.and_then(|m| m.view());
+    let is_rm = m.map(|m| m.kind == Kind::RouteMon).unwrap_or(false);
+    let origin = |u: &Upd| -> Option<u32> { match spec_hops(u.aspath.as_deref().unwrap_or(&[])).last() { Some(SHop::Asn(a)) => Some(*a), _ => None } };
+    for o in ops {
+        match o {
+            Op::Custom(s) => e.cs = Some(s.clone()),
+            Op::OriginAs => if let Some(u) = view { if let Some(a) = origin(u) { e.oa = Some(a); } },
+            Op::PeerAs => if is_rm { e.pa = Some(m.unwrap().pph_asn); },
+            Op::Hops => if let Some(u) = view { e.ah = u.aspath.as_ref().map(|p| spec_hops(p).len()); },
+            Op::CReach => if let Some(u) = view { e.cr = u.reach.len(); },
+            Op::CUnreach => if let Some(u) = view { e.cw = u.unreach.len(); },
+            Op::MpReach => if let Some(u) = view { if let Some(mp) = &u.mp_reach { e.mr = Some(mp.nlri.len()); e.mf = Some(mp.fam); } },
+            Op::MpUnreach => if let Some(u) = view { if let Some(mp) = &u.mp_unreach { e.mu = Some(mp.nlri.len()); e.uf = Some(mp.fam); } },
+            Op::LogAll => if is_rm {
+                e.pa = Some(m.unwrap().pph_asn);
+                if let Some(u) = view {
+                    if let Some(p) = &u.aspath { e.ah = Some(spec_hops(p).len()); e.oa = origin(u); }
+                    e.cr = u.reach.len(); e.cw = u.unreach.len();
+                    if let Some(mp) = &u.mp_reach { e.mr = Some(mp.nlri.len()); e.mf = Some(mp.fam); }
+                    if let Some(mp) = &u.mp_unreach { e.mu = Some(mp.nlri.len()); e.uf = Some(mp.fam); }
+                }
+            },
+            Op::Write => { outs.push(Out::Entry(e)); e = fresh.clone(); }
+            Op::LogCustom(a, b) => outs.push(Out::Custom(*a, *b)),
+        }
+    }
+    (outs, e)
+}
+/// judge observed outputs (+ pending entry) against the documented meaning
+fn judge_ops(site: &str, got: &[Out], pending: Option<&Ent>, want: &(Vec<Out>, Ent)) -> String {
+    let shape = |v: &[Out]| -> String { v.iter().map(|o| match o { Out::Custom(..) => 'C', Out::Entry(_) => 'E', Out::Other(_) => '?' }).collect() };
+    if shape(got) != shape(&want.0) { return format!("fail rotomethods:write_entry:exactly-once-in-order {site} want {} got {}", shape(&want.0), shape(got)); }
+    let mut ts_only = None;
+    for (k, (g, w)) in got.iter().zip(want.0.iter()).enumerate() {
+        match (g, w) {
+            (Out::Custom(a, b), Out::Custom(c, d)) => if (a, b) != (c, d) { return format!("fail rotomethods:log_custom:values {site}"); },
+            (Out::Entry(g), Out::Entry(w)) => match g.diff(w) {
+                None => {}
+                Some("timestamp") => { if ts_only.is_none() { ts_only = Some(k); } }
+                Some(f) => return format!("fail rotomethods:{f}:entry-field {site} output {k} want {} got {}", w.show(), g.show()),
+            },
+            _ => {}
+        }
+    }
+    if let Some(p) = pending { if let Some(f) = p.diff(&want.1) { if f != "timestamp" { return format!("fail rotomethods:{f}:pending-entry-field {site} want {} got {}", want.1.show(), p.show()); } else if ts_only.is_none() { ts_only = Some(got.len()); } } }
+    if let Some(k) = ts_only { return format!("fail rotomethods:write_entry:next-entry-epoch-timestamp {site} entry {k} carries 1970-01-01T00:00:00Z"); }
+    "ok".into()
+}
+
+fn l_src(unit: &str, ops: &[Op], chain: &[bool]) -> String {
+    let head = match unit { "bgp" => "filter bgp-in(m: BgpMsg, prov: Provenance) {\n", "bmp" => "filter bmp-in(m: BmpMsg, prov: Provenance) {\n", _ => "filter rib-in-pre(m: Route) {\n" };
+    format!("{head}{}  accept\n}}\n", ops_roto(ops, chain, "  "))
+}
+fn drain_outs(os: &mut RotoOutputStream) -> Vec<Out> {
+    os.drain().map(|o| match o { Output::Custom((a, b)) => Out::Custom(a, b), Output::Entry(e) => Out::Entry(Ent::of(&e)), o => Out::Other(format!("{o:?}").split('(').next().unwrap().to_string()) }).collect()
+}
+
+struct Rt(tokio::runtime::Runtime);
+impl Rt { fn new() -> Rt { Rt(tokio::runtime::Builder::new_current_thread().enable_all().build().unwrap()) } }
+fn take_os(c: &Arc<vr::Collector>) -> Vec<Vec<(String, Out)>> {
+    c.0.lock().unwrap().drain(..).filter_map(|u| match u {
+        Update::OutputStream(v) => Some(v.iter().map(|m| (m.get_topic().clone(), match m.get_record() {
+            OutputStreamMessageRecord::Entry(e) => Out::Entry(Ent::of(e)),
+            OutputStreamMessageRecord::Custom(_) => { let j = serde_json::to_value(m.get_record()).unwrap(); Out::Custom(j["id"].as_u64().unwrap_or(0) as u32, j["value"].as_u64().unwrap_or(0) as u32) }
+            r => Out::Other(format!("{r:?}").split('(').next().unwrap().to_string()),
+        })).collect()),
+        _ => None,
+    }).collect()
+}
+/// C17's record vocabulary: the JSON object of a `LogEntry` record must carry exactly the entry's fields
+fn json_matches(rec: &OutputStreamMessageRecord, e: &Ent) -> bool {
+    let Ok(j) = serde_json::to_value(rec) else { return false };
+    let n = |k: &str| j.get(k).and_then(|v| v.as_u64());
+    let keys: Vec<&str> = j.as_object().map(|o| o.keys().map(|k| k.as_str()).collect()).unwrap_or_default();
+    keys == ["timestamp", "origin_as", "peer_as", "as_path_hops", "conventional_reach", "conventional_unreach", "mp_reach", "mp_reach_afisafi", "mp_unreach", "mp_unreach_afisafi", "custom"]
+        && n("origin_as") == e.oa.map(|x| x as u64) && n("peer_as") == e.pa.map(|x| x as u64) && n("as_path_hops") == e.ah.map(|x| x as u64)
+        && n("conventional_reach") == Some(e.cr as u64) && n("conventional_unreach") == Some(e.cw as u64) && n("mp_reach") == e.mr.map(|x| x as u64) && n("mp_unreach") == e.mu.map(|x| x as u64)
+        && j["mp_reach_afisafi"].is_null() == e.mf.is_none() && j["mp_unreach_afisafi"].is_null() == e.uf.is_none()
+        && j["custom"].as_str().map(|s| s.to_string()) == e.cs && (j["timestamp"].as_i64() != Some(0)) == e.ts
+}
+
 // ===================================================================== generator
 
 const ASNS: [u32; 9] = [1, 2, 200, 12345, 23456, 64512, 65000, 65535, 65536];
@@ -444,12 +609,24 @@ impl Gen {
         let all: Vec<u32> = u.aspath.iter().flatten().flat_map(|s| s.asns.clone()).collect();
         if !all.is_empty() && self.rng.chance(2, 3) { if self.rng.chance(1, 2) { *all.last().unwrap() } else { *self.rng.pick(&all) } } else { *self.rng.pick(&ASNS) }
     }
+    fn ops(&mut self, bmp: bool) -> Vec<Op> {
+        let n = self.rng.range(0, 9);
+        (0..n).map(|_| {
+            let k = if bmp { self.rng.below(14) } else { *self.rng.pick(&[0u64, 0, 9, 9, 10]) };
+            match k {
+                0 => Op::Custom(self.rng.pick(&["x", "hello", "a1", "Z"]).to_string()), 1 => Op::OriginAs, 2 => Op::PeerAs, 3 => Op::Hops, 4 => Op::CReach, 5 => Op::CUnreach, 6 => Op::MpReach, 7 => Op::MpUnreach, 8 => Op::LogAll,
+                10 => Op::LogCustom(self.rng.below(5) as u32, self.rng.below(100) as u32), _ => Op::Write,
+            }
+        }).collect()
+    }
     fn kind(&mut self) -> Kind { *self.rng.pick(&[Kind::Init, Kind::PeerUp, Kind::PeerDown, Kind::RouteMon, Kind::RouteMon, Kind::RouteMon, Kind::RouteMon, Kind::RouteMon, Kind::Stats, Kind::Term]) }
 }
 
 // ===================================================================== cases
 
-struct Eng { rec: Recorder, p: Probes }
+struct Eng { rec: Recorder, p: Probes, rt: Rt }
+
+fn show_groups(g: &[Vec<(String, Out)>]) -> String { if g.is_empty() { "-".into() } else { join(g.iter().map(|v| format!("os[{}]", join(v.iter().map(|(t, o)| format!("{t}:{}", o.show())), " "))), " / ") } }
 
 impl Eng {
     fn shape(u: &Upd) -> bool { u.aspath.as_ref().map(|p| p.len() > 1 || p.iter().any(|s| s.kind != 2)).unwrap_or(false) || u.mp_reach.is_some() || u.mp_unreach.is_some() || u.comms.is_some() || u.lcomms.is_some() }
@@ -491,6 +668,109 @@ impl Eng {
         if view.is_some() { self.bump_shape(u); }
         self.rec.case(format!("M|rib|i={} {} ql={}:{}:{} qa={}", idx, u.tok(), ql.0, ql.1, ql.2, qa), o.show(), oracle, view.map(Self::shape).unwrap_or(false));
     }
+
+    // ---------------------------------------------------------------- Log / LogEntry cases
+
+    fn chain_of(ops: &[Op]) -> Vec<bool> { (0..ops.len()).map(|i| (i * 7 + ops.len()) % 3 != 0).collect() }
+    fn ops_nontrivial(ops: &[Op]) -> bool { ops.iter().filter(|o| **o == Op::Write).count() >= 1 && ops.iter().any(|o| !matches!(o, Op::Write | Op::LogCustom(..))) }
+
+    /// one call of a generated Log/LogEntry script, compiled by the real runtime, on a fresh stream
+    fn l_case(&mut self, unit: &str, ops: &[Op], input: &str) -> Option<Vec<Out>> {
+        let kv = kvs(input);
+        let src = l_src(unit, ops, &Self::chain_of(ops));
+        let mut c = match compile(&src) { Ok(c) => c, Err(e) => { self.rec.bump("L.compile-error"); if std::env::var("ROTOMETHODS_DEBUG").is_ok() { eprintln!("{e}\n{src}"); } return None } };
+        let mut os = RotoOutputStream::new();
+        let mut ctx = Ctx::new(&mut os);
+        let bmp_in;
+        let view: Option<&BmpIn> = match unit {
+            "bgp" => { let u = Upd::parse(&kv); let m = u.msg()?; let f: BgpFunc = c.get_function("bgp-in").ok()?; let _ = f.call(&mut ctx, roto::Val(m), roto::Val(prov(1))); None }
+            "bmp" => { bmp_in = BmpIn::parse(&kv); let m = BmpMsg::from_octets(bmp_in.bytes()).ok()?; if bmp_in.kind == Kind::RouteMon && !bmp_in.bad && bmp_in.upd.msg().is_none() { return None; }
+                let f: BmpFunc = c.get_function("bmp-in").ok()?; let _ = f.call(&mut ctx, roto::Val(m), roto::Val(prov(1))); Some(&bmp_in) }
+            _ => { let u = Upd::parse(&kv); let m = u.msg()?; let (a, w) = vr::explode(&m).ok()?; let all: Vec<RotondaRoute> = a.into_iter().chain(w).collect(); let r = all.get(kv["i"].parse::<usize>().unwrap())?.clone();
+                let f: RibFunc = c.get_function("rib-in-pre").ok()?; let _ = f.call(&mut ctx, roto::Val(r)); None }
+        };
+        let got = drain_outs(&mut os);
+        let pending = Ent::of(os.entry());
+        let want = spec_ops(view, ops, Ent { ts: true, ..Ent::default() });
+        let oracle = judge_ops(match unit { "bgp" => "bgp-in", "bmp" => "bmp-in", _ => "rib-in-pre" }, &got, Some(&pending), &want);
+        self.rec.bump(&format!("L.{unit}")); self.rec.bump_by("L.ops", ops.len() as u64); self.rec.bump_by("L.entries-written", got.iter().filter(|o| matches!(o, Out::Entry(_))).count() as u64);
+        self.rec.case(format!("L|{unit}|{}|{}", ops_tok(ops), input), format!("{} | P={}", outs_show(&got), pending.show()), oracle, Self::ops_nontrivial(ops));
+        Some(got)
+    }
+
+    /// the same script installed in the real bmp-in `RouterHandler`: what reaches the gate
+    fn h_bmp(&mut self, ops: &[Op], i: &BmpIn) {
+        let src = l_src("bmp", ops, &Self::chain_of(ops));
+        let Ok(mut c) = compile(&src) else { self.rec.bump("H.compile-error"); return };
+        let Ok(m) = BmpMsg::from_octets(i.bytes()) else { return };
+        if i.kind == Kind::RouteMon && !i.bad && i.upd.msg().is_none() { return; }
+        let f: BmpFunc = c.get_function("bmp-in").unwrap();
+        let (h, mut agent) = vr::bmp::mk_handler(Some(f), 7);
+        let col = Arc::new(vr::Collector::default());
+        let mut link = agent.create_link();
+        link.set_direct_update_target(col.clone());
+        self.rt.0.block_on(async { tokio::select! { _ = link.connect(false) => {} _ = async { loop { vr::bmp::gate_process(&h).await; } } => {} } });
+        let _ = self.rt.0.block_on(vr::bmp::process_msg(&h, "10.0.0.5:1790".parse().unwrap(), 7, m, prov(0)));
+        let mut json_ok = true;
+        for u in col.0.lock().unwrap().iter() { if let Update::OutputStream(v) = u { for m in v { if let OutputStreamMessageRecord::Entry(e) = m.get_record() { json_ok &= json_matches(m.get_record(), &Ent::of(e)); } } } }
+        let groups = take_os(&col);
+        let flat: Vec<Out> = groups.iter().flatten().map(|x| x.1.clone()).collect();
+        let want = spec_ops(Some(i), ops, Ent { ts: true, ..Ent::default() });
+        let mut oracle = judge_ops("bmp-in", &flat, None, &want);
+        if oracle == "ok" && groups.len() > 1 { oracle = "fail rotomethods:output-stream:one-update-per-message bmp-in".into(); }
+        if oracle == "ok" && groups.iter().flatten().any(|(t, o)| match o { Out::Entry(_) => t != "log_entry", Out::Custom(..) => t != "custom", _ => true }) { oracle = "fail rotomethods:output-stream:topic bmp-in".into(); }
+        if oracle == "ok" && !json_ok { oracle = "fail rotomethods:logentry:json-record-fields bmp-in".into(); }
+        self.rec.bump("H.bmp");
+        self.rec.case(format!("H|bmp|{}|{}", ops_tok(ops), i.tok()), show_groups(&groups), oracle, Self::ops_nontrivial(ops));
+        drop(link); drop(agent);
+    }
+
+    /// one script (`if route.has_attribute(1) { A } else { W }`: A runs on announced routes, W on withdrawn
+    /// ones) installed in the real RIB unit; one Bulk of all routes of the UPDATE
+    fn h_rib(&mut self, ops_a: &[Op], ops_w: &[Op], u: &Upd) -> Option<Vec<Vec<(String, Out)>>> {
+        let src = format!("filter rib-in-pre(m: Route) {{\n  if m.has_attribute(1) {{\n{}  }} else {{\n{}  }}\n  accept\n}}\n", ops_roto(ops_a, &Self::chain_of(ops_a), "    "), ops_roto(ops_w, &Self::chain_of(ops_w), "    "));
+        let mut c = match compile(&src) { Ok(c) => c, Err(e) => { self.rec.bump("H.compile-error"); if std::env::var("ROTOMETHODS_DEBUG").is_ok() { eprintln!("{e}\n{src}"); } return None } };
+        let m = u.msg()?;
+        let (a, w) = vr::explode(&m).ok()?;
+        if a.len() + w.len() == 0 { return None; }
+        let f: RibFunc = c.get_function("rib-in-pre").unwrap();
+        let (runner, mut agent) = vr::rib::mk_runner(Some(f));
+        let col = Arc::new(vr::Collector::default());
+        let mut link = agent.create_link();
+        link.set_direct_update_target(col.clone());
+        self.rt.0.block_on(async { tokio::select! { _ = link.connect(false) => {} _ = async { loop { vr::rib::gate_process(&runner).await; } } => {} } });
+        let pv = Provenance::for_bgp(7, "10.0.0.1".parse().unwrap(), Asn::from_u32(65000));
+        let ctx = FreshRouteContext::new(m.clone(), RouteStatus::Active, pv);
+        let wctx = FreshRouteContext { status: RouteStatus::Withdrawn, ..ctx.clone() };
+        let mut ps: smallvec::SmallVec<[Payload; 8]> = smallvec::SmallVec::new();
+        let now = Instant::now();
+        let (na, nw) = (a.len(), w.len());
+        for r in a { ps.push(Payload::with_received(r, ctx.clone().into(), None, now)); }
+        for r in w { ps.push(Payload::with_received(r, wctx.clone().into(), None, now)); }
+        let upd = if ps.len() == 1 { Update::Single(ps.into_iter().next().unwrap()) } else { Update::Bulk(ps) };
+        let _ = self.rt.0.block_on(vr::rib::process_update(&runner, upd));
+        let groups = take_os(&col);
+        // documented meaning: every route is one filter call with its own (new, empty) entry
+        let mut want_groups: Vec<Vec<Out>> = vec![];
+        for k in 0..na + nw { let w = spec_ops(None, if k < na { ops_a } else { ops_w }, Ent { ts: true, ..Ent::default() }); if !w.0.is_empty() { want_groups.push(w.0); } }
+        let got_groups: Vec<Vec<Out>> = groups.iter().map(|g| g.iter().map(|x| x.1.clone()).collect()).collect();
+        let mut oracle = "ok".to_string();
+        if got_groups.len() != want_groups.len() { oracle = format!("fail rotomethods:write_entry:exactly-once-in-order rib-in-pre want {} updates got {}", want_groups.len(), got_groups.len()); }
+        else {
+            let mut leak = false; let mut ts = false;
+            for (g, w) in got_groups.iter().zip(want_groups.iter()) {
+                let o = judge_ops("rib-in-pre", g, None, &(w.clone(), Ent::default()));
+                if o.starts_with("fail rotomethods:custom:entry-field") { leak = true; } else if o.starts_with("fail rotomethods:write_entry:next-entry-epoch-timestamp") { ts = true; } else if o != "ok" && oracle == "ok" { oracle = o; }
+            }
+            if oracle == "ok" && leak { oracle = "fail rotomethods:entry:unwritten-entry-leaks-into-next-route rib-in-pre an entry composed for one route of a Bulk and not written is written for a later route".into(); }
+            else if oracle == "ok" && ts { oracle = "fail rotomethods:write_entry:next-entry-epoch-timestamp rib-in-pre".into(); }
+        }
+        self.rec.bump("H.rib"); self.rec.bump_by("H.rib.routes", (na + nw) as u64);
+        self.rec.case(format!("H|rib|{};{}|{}", ops_tok(ops_a), ops_tok(ops_w), u.tok()), show_groups(&groups), oracle, Self::ops_nontrivial(ops_a) || Self::ops_nontrivial(ops_w));
+        drop(link); drop(agent);
+        Some(groups)
+    }
+
     fn bump_shape(&mut self, u: &Upd) {
         match &u.aspath {
             None => self.rec.bump("path.absent"),
@@ -543,6 +823,9 @@ fn run_line(e: &mut Eng, line: &str) {
                 _ => e.m_rib(&Upd::parse(&kv), kv["i"].parse().unwrap(), ql, qa),
             }
         }
+        ("L", unit) => { e.l_case(unit, &ops_parse(parts[2]), parts[3]); }
+        ("H", "bmp") => e.h_bmp(&ops_parse(parts[2]), &BmpIn::parse(&kvs(parts[3]))),
+        ("H", _) => { let (a, w) = parts[2].split_once(';').unwrap(); e.h_rib(&ops_parse(a), &ops_parse(w), &Upd::parse(&kvs(parts[3]))); }
         _ => {}
     }
 }
@@ -551,8 +834,11 @@ fn main() {
     let args = parse_args();
     if std::env::var("ROTOMETHODS_DEBUG").is_err() { std::panic::set_hook(Box::new(|_| {})); }
     let t0 = Instant::now();
-    let rec = Recorder::new("T: the method table registered by create_runtime; M: every value method of BgpMsg / BmpMsg / Route called from a real compiled roto filter (or roto function for methods with a LargeCommunity / Asn argument) on one generated UPDATE (all AS_PATH segment kinds incl. empty and >255-ASN paths, 2- and 4-octet sessions, standard / large / extended communities, conventional + MP NLRI of 4 families, End-of-RIB), BMP message kinds incl. a RouteMonitoring whose PDU does not parse; non-trivial = the UPDATE in view has a multi-segment or non-sequence AS_PATH, MP NLRI or communities; distinct = distinct case lines");
-    let mut e = Eng { rec, p: Probes::new() };
+    let rec = Recorder::new("T: the method table registered by create_runtime; M: every value method of BgpMsg / BmpMsg / Route called from a real compiled roto filter (or roto function for methods with a LargeCommunity / Asn argument) on one generated UPDATE (all AS_PATH segment kinds incl. empty and >255-ASN paths, 2- and 4-octet sessions, standard / large / extended communities, conventional + MP NLRI of 4 families, End-of-RIB), BMP message kinds incl. a RouteMonitoring whose PDU does not parse; non-trivial = the UPDATE in view has a multi-segment or non-sequence AS_PATH, MP NLRI or communities; L: one call of a generated sequence of Log / LogEntry method calls (setters chained or not, custom text, write_entry, log_custom) compiled by the real runtime, on a fresh stream (drained outputs + the pending entry); H: the same scripts installed in the real bmp-in RouterHandler / RIB unit (one Bulk of all routes of the UPDATE), observation = the records of every Update::OutputStream at the gate; non-trivial (L/H) = at least one write_entry and one setter; distinct = distinct case lines");
+    let rt0 = Rt::new();
+    let handle = rt0.0.handle().clone();
+    let _guard = handle.enter(); // Gate's Drop spawns a task
+    let mut e = Eng { rec, p: Probes::new(), rt: rt0 };
 
     if let Some(path) = &args.replay {
         for line in verif_harness::replay_cases(path) { run_line(&mut e, &line); }
@@ -575,8 +861,31 @@ fn main() {
         e.m_rib(w, 0, (65000, 1, 2), 200);
     }
 
+    // ---- witnesses of the two LogEntry counterexample theorems; they decide the variants
+    let rm = BmpIn { kind: Kind::RouteMon, pph_asn: 65000, bad: false, upd: w1.clone() };
+    let got = e.l_case("bmp", &[Op::LogAll, Op::Write, Op::PeerAs, Op::Write], &rm.tok());
+    let second_ts = got.as_ref().and_then(|g| match g.get(1) { Some(Out::Entry(x)) => Some(x.ts), _ => None }).unwrap_or(false);
+    e.rec.variant("take_entry", if second_ts { "repaired" } else { "as-written" });
+    e.h_bmp(&[Op::LogAll, Op::Write, Op::PeerAs, Op::Write], &rm);
+    // rib-in-pre: the announced route composes "x" and does not write; the withdrawn route writes
+    let wr = Upd { aspath: Some(vec![seq(&[65000, 200])]), reach: vec![1], unreach: vec![2], ..Upd::default() };
+    let got = e.h_rib(&[Op::Custom("x".into())], &[Op::Write], &wr);
+    let leaked = got.as_ref().map(|g| g.iter().flatten().any(|(_, o)| matches!(o, Out::Entry(x) if x.cs.is_some()))).unwrap_or(false);
+    e.rec.variant("rib_stream", if leaked { "per-update" } else { "per-route" });
+
     let mut g = Gen { rng: Rng::new(args.seed) };
-    let n = if args.thorough { 40000 } else { 4000 };
+    let nl = if args.thorough { 6000 } else { 900 };
+    for k in 0..nl {
+        let u = g.upd();
+        match k % 6 {
+            0 => { let ops = g.ops(false); e.l_case("bgp", &ops, &u.tok()); }
+            1 => { let ops = g.ops(false); let nr = u.reach.len() + u.unreach.len() + u.mp_reach.as_ref().map(|m| m.nlri.len()).unwrap_or(0) + u.mp_unreach.as_ref().map(|m| m.nlri.len()).unwrap_or(0); if nr > 0 { let idx = g.rng.below(nr as u64); e.l_case("rib", &ops, &format!("i={idx} {}", u.tok())); } }
+            2 | 3 => { let ops = g.ops(true); let kind = g.kind(); let bad = kind == Kind::RouteMon && g.rng.chance(1, 12); let pa = g.asn(true); e.l_case("bmp", &ops, &BmpIn { kind, pph_asn: pa, bad, upd: u }.tok()); }
+            4 => { let ops = g.ops(true); let kind = g.kind(); let pa = g.asn(true); e.h_bmp(&ops, &BmpIn { kind, pph_asn: pa, bad: false, upd: u }); }
+            _ => { let a = g.ops(false); let w = g.ops(false); e.h_rib(&a, &w, &u); }
+        }
+    }
+    let n = if args.thorough { 120000 } else { 12000 };
     for k in 0..n {
         let u = g.upd();
         let ql = g.ql(&u); let qa = g.qa(&u);
@@ -586,6 +895,6 @@ fn main() {
             _ => { let nr = u.reach.len() + u.unreach.len() + u.mp_reach.as_ref().map(|m| m.nlri.len()).unwrap_or(0) + u.mp_unreach.as_ref().map(|m| m.nlri.len()).unwrap_or(0); if nr > 0 { let idx = g.rng.below(nr as u64) as usize; e.m_rib(&u, idx, ql, qa) } }
         }
     }
-    let _ = (Arc::new(0), IpAddr::V4(Ipv4Addr::LOCALHOST), FreshRouteContext::new, RouteStatus::Active, Payload::with_received, Update::Bulk, OutputStreamMessageRecord::Custom);
+    let _ = IpAddr::V4(Ipv4Addr::LOCALHOST);
     e.rec.finish(&args, t0.elapsed().as_secs_f64());
 }
